@@ -26,6 +26,7 @@ type Config struct {
 	PermuteMap bool
 	NoInit     []string // packages whose init is skipped
 	InitPkgs   []string // non-repo packages whose init runs for real
+	SchedFork  int      // >0: scheduling choices fork (sched_fork.go); bound on non-default choices per path
 }
 
 type Interp struct {
@@ -46,6 +47,7 @@ type Interp struct {
 	inInit   int
 	sideTab  map[string]Value
 	steps    int
+	schedForks int // non-default scheduling choices taken on this path (sched_fork.go)
 
 	// across paths
 	FuncsSeen  map[string]bool
@@ -131,6 +133,7 @@ func (in *Interp) resetPath() {
 	in.initDone = map[*ssa.Package]bool{}
 	in.sideTab = map[string]Value{}
 	in.steps = 0
+	in.schedForks = 0
 }
 
 // ---- value lookup ----
@@ -440,6 +443,9 @@ func (in *Interp) callFunction(fn *ssa.Function, args []Value, bind []Value) Val
 	}
 	if h, ok := intrinsics[name]; ok {
 		in.IntrHit[name] = true
+		if in.Cfg.SchedFork > 0 && isSyncOpName(name) {
+			in.preemptPoint(name)
+		}
 		return h(in, fn, args)
 	}
 	if o := fn.Origin(); o != nil {
